@@ -1,5 +1,6 @@
 import MosdnsVerif.Model.C09
 import MosdnsVerif.Gen.FnConn
+import MosdnsVerif.Gen.Facts
 
 /-! The counter updates of the C09 model are the ones regenerated from the source (T1). -/
 namespace Refine.C09
@@ -30,5 +31,44 @@ theorem lazy_withdraw_eq_gen (s : Lazy) (h : s.eh ≠ 0) :
     s.step .withdraw = some ({ s with wg := (Gen.lazyWithdrawReserved s.wg s.reserved).1,
                                       reserved := (Gen.lazyWithdrawReserved s.wg s.reserved).2, eh := s.eh - 1 }, .none) := by
   simp [Lazy.step, h, Gen.lazyWithdrawReserved]
+
+/-! ### the waiter table counts the unanswered queries
+
+`Tdc.step · (.enter true)` adds one to `queued` (= `len(dc.queue)`) for every
+query that enters. In the code the entry is a map assignment `dc.queue[qid] = c`,
+which adds an entry only if `qid` has none yet. The table is modelled as the list
+of wire ids that have an entry; one try of the id search is the regenerated
+`Gen.addQueueTry`, with `dup` = "the loop looks the id up in the table"
+(`Gen.Facts.c01AllocSkipsIdsInUse`) and finds it. -/
+
+/-- `dc.queue[qid] = c` on a Go map, seen from `len` -/
+def tblSet (tbl : List UInt16) (qid : UInt16) : List UInt16 := if tbl.contains qid then tbl else qid :: tbl
+
+/-- one try of `addQueueC`: the table after it if an id was assigned, and the counter -/
+def addQueueStep (looksUp : Bool) (tbl : List UInt16) (next : UInt16) : Option (List UInt16) × UInt16 :=
+  match Gen.addQueueTry 0 next (looksUp && tbl.contains next) with
+  | (true, qid, n) => (some (tblSet tbl qid), n)
+  | (false, _, n) => (none, n)
+
+/-- **A query that is assigned an id adds one entry to the waiter table**, whatever
+ids are waiting and wherever the 16-bit counter stands (also after it wrapped onto
+the id of a query that is still unanswered): `queued := queued + 1` of the model is
+what the code does, so `len(queue)` keeps counting the unanswered queries. -/
+theorem enter_adds_one_entry (tbl tbl' : List UInt16) (next n : UInt16)
+    (h : addQueueStep (Gen.Facts.c01AllocSkipsIdsInUse == some true) tbl next = (some tbl', n)) :
+    tbl'.length = tbl.length + 1 := by
+  have hf : (Gen.Facts.c01AllocSkipsIdsInUse == some true) = true := by decide
+  rw [hf] at h
+  unfold addQueueStep Gen.addQueueTry at h
+  by_cases hc : next ∈ tbl
+  · simp [hc] at h
+  · simp [hc, tblSet] at h
+    obtain ⟨h1, _⟩ := h
+    subst h1
+    simp
+
+/-- witness: a search that does not look the id up overwrites the entry of a waiting
+query when the counter comes back to its id: two unanswered queries, one entry -/
+theorem no_lookup_loses_entry : addQueueStep false [5] 5 = (some [5], 6) := by decide
 
 end Refine.C09
